@@ -25,7 +25,7 @@
   context lowers the receive pollable.
 -/
 import NngModel.Proto.Base
-import NngModel.Generated.Consts
+import NngModel.Generated.C04REQ
 namespace Nng.Req
 open Nng Nng.Proto
 
